@@ -538,26 +538,27 @@ func indexBoundOnClone(p *Prog, idx ssa.Value, where func(*ssa.Call) bool, varKe
 				if a != idx || ai >= len(sc.Params) {
 					continue
 				}
-				// the helper returns the very clone it bound the index on
-				var clone *ssa.Call
-				okRet := true
-				for _, b := range sc.Blocks {
-					for _, in := range b.Instrs {
-						if rt, ok := in.(*ssa.Return); ok {
-							c, isC := ssa.Value(nil), false
-							if len(rt.Results) > 0 {
-								c = rt.Results[0]
-								_, isC = c.(*ssa.Call)
-							}
-							if !isC || (clone != nil && c != ssa.Value(clone)) {
-								okRet = false
-							} else {
-								clone = c.(*ssa.Call)
+				// the helper binds the index on a clone it makes itself, and that clone is what it evaluates with
+				// (handed to a call) or hands back (returned)
+				used := func(c *ssa.Call) bool {
+					if c.Parent() != sc || c.Referrers() == nil {
+						return false
+					}
+					for _, ref := range *c.Referrers() {
+						switch u := ref.(type) {
+						case *ssa.Return:
+							return true
+						case ssa.CallInstruction:
+							for _, a := range u.Common().Args {
+								if a == ssa.Value(c) {
+									return true
+								}
 							}
 						}
 					}
+					return false
 				}
-				if okRet && clone != nil && indexBoundOnClone(p, sc.Params[ai], func(c *ssa.Call) bool { return c == clone }, varKey, depth+1) {
+				if indexBoundOnClone(p, sc.Params[ai], used, varKey, depth+1) {
 					return true
 				}
 			}
